@@ -7,3 +7,10 @@ import JominiModel.Props.C11
 #print axioms Jomini.Props.C11.C11_i64
 #print axioms Jomini.Props.C11.C11_i64_out_of_range
 #print axioms Jomini.Props.C11.C11_i64_foreign
+#print axioms Jomini.Props.C11.C11_f64_shape
+#print axioms Jomini.Props.C11.C11_f64_value
+#print axioms Jomini.Props.C11.C11_u64ToF64_exact
+#print axioms Jomini.Props.C11.C11_f64_correctly_rounded
+#print axioms Jomini.Props.C11.C11_f64_integers_exact_or_refused
+#print axioms Jomini.Props.C11.C11_f64_big_integer_refused
+#print axioms Jomini.Props.C11.C11_f64_finite
